@@ -241,7 +241,7 @@ def match_known(entry, bucket, failure):
 
 
 def write_replay(prop, bucket, failure):
-    d = os.path.join(env.VERIF_ROOT, 'replays', prop)
+    d = os.path.join(env.OUT_ROOT, 'replays', prop)
     os.makedirs(d, exist_ok=True)
     h = hashlib.blake2b(json.dumps(failure['case'], sort_keys=True).encode(), digest_size=4).hexdigest()
     safe = re.sub(r'[^A-Za-z0-9_.-]+', '_', bucket)[:80]
@@ -319,8 +319,8 @@ def finish(ctx, module, stats, sigtools_file):
         'violations': len(violations),
     }
     validate_evidence(ev)
-    os.makedirs(os.path.join(env.VERIF_ROOT, 'evidence'), exist_ok=True)
-    with open(os.path.join(env.VERIF_ROOT, 'evidence', prop + '.json'), 'w') as f:
+    os.makedirs(os.path.join(env.OUT_ROOT, 'evidence'), exist_ok=True)
+    with open(os.path.join(env.OUT_ROOT, 'evidence', prop + '.json'), 'w') as f:
         json.dump(ev, f, indent=1, sort_keys=True)
     print('%s tier=%s seed=%d evaluations=%d distinct_nontrivial=%d buckets=%d violations=%d wall=%.1fs' % (
         prop, ctx.tier, ctx.seed, stats.evaluations, distinct, len(stats.failures), len(violations), ev['wall_s']))
